@@ -69,6 +69,7 @@ type Machine struct {
 	timeLocal *value
 	lastNow   *Term
 	freshMaps map[*MapV]bool
+	bounds    map[*Term][2]int64 // signed interval implied by the path condition, per variable
 }
 
 func (m *Machine) fail(kind, detail string) {
@@ -128,7 +129,159 @@ func (m *Machine) addPC(c *Term) {
 	m.noteBinding(c)
 }
 
+// varOf peels sign/zero extensions off a variable; ok only when the
+// extension preserves the signed value given the known bounds.
+func (m *Machine) varOf(t *Term) (*Term, bool) {
+	switch t.Op {
+	case OVar:
+		if t.S.K == KBV {
+			return t, true
+		}
+	case OSExt:
+		if t.A[0].Op == OVar {
+			return t.A[0], true
+		}
+	case OZExt:
+		if t.A[0].Op == OVar {
+			if b, ok := m.bounds[t.A[0]]; ok && b[0] >= 0 {
+				return t.A[0], true
+			}
+		}
+	}
+	return nil, false
+}
+
+func (m *Machine) getBounds(v *Term) [2]int64 {
+	if b, ok := m.bounds[v]; ok {
+		return b
+	}
+	w := uint(v.S.W)
+	if w >= 64 {
+		return [2]int64{-1 << 63, 1<<63 - 1}
+	}
+	return [2]int64{-(1 << (w - 1)), 1<<(w-1) - 1}
+}
+
+// cmpForm recognises cond as (x op k) or (k op x) with x a variable:
+// returns v, lo, hi such that cond <=> lo <= v <= hi, when it has that shape.
+func (m *Machine) cmpForm(c *Term) (v *Term, lo, hi int64, ok bool) {
+	neg := false
+	if c.Op == ONot {
+		neg = true
+		c = c.A[0]
+	}
+	const minI, maxI = int64(-1 << 63), int64(1<<63 - 1)
+	switch c.Op {
+	case OSlt, OSle, OUlt, OUle, OEq:
+	default:
+		return nil, 0, 0, false
+	}
+	a, b := c.A[0], c.A[1]
+	var k int64
+	varLeft := true
+	if b.IsConst() {
+		v, ok = m.varOf(a)
+		k = b.Int()
+	} else if a.IsConst() {
+		v, ok = m.varOf(b)
+		k = a.Int()
+		varLeft = false
+	}
+	if !ok {
+		return nil, 0, 0, false
+	}
+	if c.Op == OUlt || c.Op == OUle {
+		// unsigned comparison coincides with signed when both sides are known non-negative
+		if k < 0 || m.getBounds(v)[0] < 0 {
+			return nil, 0, 0, false
+		}
+	}
+	lo, hi = minI, maxI
+	strict := c.Op == OSlt || c.Op == OUlt
+	switch {
+	case c.Op == OEq:
+		if neg {
+			return nil, 0, 0, false
+		}
+		return v, k, k, true
+	case varLeft && !neg: // v < k | v <= k
+		hi = k
+		if strict {
+			if k == minI {
+				return nil, 0, 0, false
+			}
+			hi = k - 1
+		}
+	case varLeft && neg: // v >= k | v > k
+		lo = k
+		if !strict {
+			if k == maxI {
+				return nil, 0, 0, false
+			}
+			lo = k + 1
+		}
+	case !varLeft && !neg: // k < v | k <= v
+		lo = k
+		if strict {
+			if k == maxI {
+				return nil, 0, 0, false
+			}
+			lo = k + 1
+		}
+	default: // !(k < v) => v <= k ; !(k <= v) => v < k
+		hi = k
+		if !strict {
+			if k == minI {
+				return nil, 0, 0, false
+			}
+			hi = k - 1
+		}
+	}
+	return v, lo, hi, true
+}
+
+// boundsDecide decides cond from the per-variable intervals when possible.
+func (m *Machine) boundsDecide(c *Term) (val bool, decided bool) {
+	v, lo, hi, ok := m.cmpForm(c)
+	if !ok {
+		return false, false
+	}
+	b := m.getBounds(v)
+	if b[0] >= lo && b[1] <= hi {
+		return true, true
+	}
+	if b[1] < lo || b[0] > hi {
+		return false, true
+	}
+	return false, false
+}
+
+func (m *Machine) noteBounds(c *Term) {
+	if c.Op == OAnd {
+		m.noteBounds(c.A[0])
+		m.noteBounds(c.A[1])
+		return
+	}
+	v, lo, hi, ok := m.cmpForm(c)
+	if !ok {
+		return
+	}
+	b := m.getBounds(v)
+	if lo > b[0] {
+		b[0] = lo
+	}
+	if hi < b[1] {
+		b[1] = hi
+	}
+	m.bounds[v] = b
+	if b[0] == b[1] {
+		m.bind[v] = mkInt(v.S.W, b[0])
+		m.bindGen++
+	}
+}
+
 func (m *Machine) noteBinding(c *Term) {
+	m.noteBounds(c)
 	switch c.Op {
 	case OEq:
 		if c.A[0].Op == OVar && c.A[1].IsConst() {
@@ -216,6 +369,9 @@ func (m *Machine) branch(cond *Term) bool {
 	cond = m.simplify(cond)
 	if cond.IsConst() {
 		return cond.Bool()
+	}
+	if v, ok := m.boundsDecide(cond); ok {
+		return v
 	}
 	d := m.decide([]*Term{cond, m.ctx.Not(cond)})
 	return d == 0
